@@ -168,7 +168,9 @@ public:
     // The converged singular values
     Vector singular_values() const
     {
-        Vector svals = m_eigs->eigenvalues().cwiseSqrt();
+        // Eigenvalues of A'A that are zero in exact arithmetic can come out as tiny negative
+        // numbers; their square roots would be NaN, so they are clamped to zero
+        Vector svals = m_eigs->eigenvalues().cwiseMax(Scalar(0)).cwiseSqrt();
 
         return svals;
     }
